@@ -82,18 +82,20 @@ def run_case(case, res=None):
         order = lambda: rng.random() < 0.5
         for op in ops:
             if op[0] in ('csend', 'ssend'):
+                mode = rng.choice([0, 0, 1, None, 'mixed'])      # how much of the wire is handed over after each call of the burst
                 for _ in range(op[1]):
+                    bud = mode if mode != 'mixed' else rng.choice([0, 0, 1, 2, None])
                     n[0] += 1
                     kind = op[2] if op[2] != 'mix' else rng.choice(['text', 'json', 'bin'])
                     m = payload(n[0], kind)
                     if op[0] == 'csend':
                         st = p.c.view()[0]
-                        p.client_call('send', m, budget=rng.choice([0, 0, 1, 2, None]))
+                        p.client_call('send', m, budget=bud)
                         if st == 'connected' and ended is None:
                             csent.append(m)
                     else:
                         live = sid in p.s.live()
-                        p.server_api('send', sid, m, budget=rng.choice([0, 0, 1, 2, None]))
+                        p.server_api('send', sid, m, budget=bud)
                         if live and ended is None:
                             ssent.append(m)
             elif op[0] == 'idle':
@@ -154,11 +156,13 @@ def run(ctx):
     res.rule = RULE
     rng = ctx.rng
     N = ctx.n(10, 120)
+    FIXED = [[('csend', 40, 'mix'), ('idle', 1), ('ssend', 40, 'mix'), ('idle', 3)],
+             [('ssend', 17, 'text'), ('csend', 17, 'bin'), ('deliver', 2), ('csend', 33, 'json'), ('idle', 3)]]
     for (ck, sk) in PAIRS:
         for trs in TRS:
-            for i in range(N):
+            for i in range(N + len(FIXED)):
                 case = dict(client=ck, server=sk, transports=trs, timing=rng.choice(TIMINGS), handler_sends=rng.random() < 0.3,
-                            ops=gen(rng), seed=rng.randrange(1 << 30))
+                            ops=gen(rng) if i >= len(FIXED) else FIXED[i], seed=rng.randrange(1 << 30) if i >= len(FIXED) else 5)
                 try:
                     out = run_case(case)
                 except Exception as e:
@@ -199,7 +203,7 @@ def ties(ctx, res):
     r2 = c08.run_suite(ctx, 'C10', (), 40, 300)
     res.merge(r2)
     # the server model (drain) against both servers, with the bursts of 15..40 sends first
-    prof = dict(c03.PROFILE, quick=30, thorough=300)
+    prof = dict(c03.PROFILE, quick=30, thorough=120)
     r3 = hsuite.run(ctx, 'C10', [], prof, RULE)
     res.merge(r3)
     res.rule = RULE + '; plus the client-history and server-history correspondences (bursts of 15..40 sends) that tie Client.v / Server.v to the code, and the decode-limit boundary'
